@@ -42,13 +42,22 @@ import (
 // (c38_seq_test.go, prefix c38q); this file uses prefix c38c.
 
 type c38cCall struct {
-	kind string // M = Make, E = PreferEmpty, X = change the answer of getOperations
+	kind string // M = Make, E = PreferEmpty, X = change the answer of getOperations, C = one tick of the pool cleaner
 	pos  string
 }
+
+// scenarios with a cleaner thread: the last block is c38cWinLast; the pool is pre-populated by the maker itself with
+// proposals at `window` consecutive heights ending at last+1. Positions "w<d>" = ((last+d, round 0), block last+d-1),
+// "v<d>" = the same height at round 1 (never pre-populated).
+const c38cWinLast = 32
 
 func (c c38cCall) String() string {
 	if c.kind == "X" {
 		return "change-operations"
+	}
+
+	if c.kind == "C" {
+		return "cleaner-tick"
 	}
 
 	return map[string]string{"M": "Make", "E": "PreferEmpty"}[c.kind] + "(" + c.pos + ")"
@@ -56,7 +65,8 @@ func (c c38cCall) String() string {
 
 type c38cScenario struct {
 	name    string
-	lbm     string // 0 none, 1 fitting block, 2 block with another hash
+	lbm     string // 0 none, 1 fitting block, 2 block with another hash, w = block c38cWinLast of the cleaner-window chain
+	window  int    // > 0: number of consecutive heights (ending at last+1) that hold a proposal of the maker at the start
 	threads [][]c38cCall
 }
 
@@ -70,6 +80,10 @@ func (s c38cScenario) id() string {
 		}
 
 		ts = append(ts, strings.Join(xs, ","))
+	}
+
+	if s.window > 0 {
+		return fmt.Sprintf("%s|lastBlockMap=%s|window=%d|%s", s.name, s.lbm, s.window, strings.Join(ts, " || "))
 	}
 
 	return fmt.Sprintf("%s|lastBlockMap=%s|%s", s.name, s.lbm, strings.Join(ts, " || "))
@@ -110,6 +124,8 @@ func c38cBuild(env *c38qEnv, s c38cScenario) vsched.Scenario {
 		return cur, nil
 	}
 
+	wlast := c38cWinLast
+
 	lastBlockMap := func() (base.BlockMap, bool, error) {
 		// the real database takes a lock here (scheduling point). The clock (util/localtime is compiled with the
 		// virtual clock) moves on by 2ms per Make / PreferEmpty call: the proposal fact hash and the signature
@@ -119,6 +135,10 @@ func c38cBuild(env *c38qEnv, s c38cScenario) vsched.Scenario {
 
 		if s.lbm == "0" {
 			return nil, false, nil
+		}
+
+		if s.lbm == "w" {
+			return c38wBlockMap(wlast), true, nil
 		}
 
 		return env.maps[s.lbm], true, nil
@@ -133,8 +153,33 @@ func c38cBuild(env *c38qEnv, s c38cScenario) vsched.Scenario {
 			}
 		}
 
+		var d int
+
+		if _, err := fmt.Sscanf(name[1:], "%d", &d); err == nil && (name[0] == 'w' || name[0] == 'v') {
+			h := c38cWinLast + d
+
+			return c38qPos{name, c38wPoint(h, map[byte]uint64{'w': 0, 'v': 1}[name[0]]), c38wBlock(h - 1)}
+		}
+
 		panic("unknown position " + name)
 	}
+
+	// the maker fills the window, height by height while the last block advances (outside the scheduler: sequential)
+	pre := map[string]string{}
+
+	for d := 2 - s.window; s.window > 0 && d <= 1; d++ {
+		pos := posof(fmt.Sprintf("w%d", d))
+		wlast = c38cWinLast + d - 1
+
+		pr, err := pm.Make(context.Background(), pos.point, pos.prev)
+		if err != nil {
+			panic(err)
+		}
+
+		pre[pos.name] = c38qIdent(pr)
+	}
+
+	wlast = c38cWinLast
 
 	var obs []c38cObs
 
@@ -148,6 +193,23 @@ func c38cBuild(env *c38qEnv, s c38cScenario) vsched.Scenario {
 				if c.kind == "X" {
 					vsched.Point("change-operations", nil)
 					cur = listB
+
+					continue
+				}
+
+				if c.kind == "C" {
+					vsched.Point("cleaner-tick", nil) // the ticker channel receive of startClean
+
+					o := c38cObs{thread: ti, call: c}
+
+					switch n, err := c38wTick(db); {
+					case err != nil:
+						o.err = err.Error()
+					default:
+						o.nops = n // number of removed proposal records
+					}
+
+					obs = append(obs, o)
 
 					continue
 				}
@@ -258,7 +320,9 @@ func c38cBuild(env *c38qEnv, s c38cScenario) vsched.Scenario {
 					return &vsched.Fail{Sig: map[string]any{"kind": o.bad, "half": "concurrent"}, Detail: s.id() + ": " + hist()}
 				}
 
-				byPos[o.call.pos] = append(byPos[o.call.pos], o)
+				if o.call.kind != "C" {
+					byPos[o.call.pos] = append(byPos[o.call.pos], o)
+				}
 			}
 
 			for pname, os := range byPos {
@@ -277,10 +341,24 @@ func c38cBuild(env *c38qEnv, s c38cScenario) vsched.Scenario {
 
 				for _, o := range os[1:] {
 					if o.ident != os[0].ident {
+						sig := map[string]any{"kind": "different-proposal-for-one-position", "half": "concurrent", "calls": strings.Join(ks, "+")}
+						if s.window > 0 {
+							sig["concurrent_cleaner_tick"] = true
+						}
+
 						return &vsched.Fail{
-							Sig:    map[string]any{"kind": "different-proposal-for-one-position", "half": "concurrent", "calls": strings.Join(ks, "+")},
+							Sig:    sig,
 							Detail: fmt.Sprintf("two calls for position %s returned different signed proposals: %s| scenario %s", pname, hist(), s.id()),
 						}
+					}
+				}
+
+				// the maker answered for this position before the threads started: it is asked again, possibly after the tick
+				if want, ok := pre[pname]; ok && os[0].ident != want {
+					return &vsched.Fail{
+						Sig: map[string]any{"kind": "different-proposal-for-one-position", "half": "concurrent", "calls": strings.Join(ks, "+"),
+							"concurrent_cleaner_tick": true, "differs_from": "proposal-returned-before-the-tick"},
+						Detail: fmt.Sprintf("position %s: the maker returned proposal %s before the threads started; now: %s| scenario %s", pname, want, hist(), s.id()),
 					}
 				}
 
@@ -331,6 +409,24 @@ func c38cScenarios() []c38cScenario {
 	for _, sh := range shapes {
 		for _, lbm := range []string{"0", "1", "2"} {
 			out = append(out, c38cScenario{name: sh.name, lbm: lbm, threads: sh.t})
+		}
+	}
+
+	// the pool cleaner as a thread. Window 3 = proposals at last-1, last, last+1 (the tick must remove nothing the maker
+	// still answers for; last-1 is the oldest such height), window 4 = one more below (the tick really removes a record
+	// while the calls run).
+	c := c38cCall{"C", ""}
+
+	for _, sh := range []struct {
+		name string
+		t    T
+	}{
+		{"cleaner-make-make", T{{c}, {m("w-1")}, {m("w-1")}}},
+		{"cleaner-make-empty", T{{c}, {m("w-1")}, {e("w-1")}}},
+		{"cleaner-make-new-round", T{{c}, {m("w-1"), m("v1")}, {m("v1")}}},
+	} {
+		for _, w := range []int{3, 4} {
+			out = append(out, c38cScenario{name: sh.name, lbm: "w", window: w, threads: sh.t})
 		}
 	}
 
